@@ -124,6 +124,9 @@ var (
 	tlsClient *tls.Config
 )
 
+// TLSConfigs returns the (server, client) configurations of the harness's self-signed identity.
+func TLSConfigs() (*tls.Config, *tls.Config) { return tlsConfigs() }
+
 func tlsConfigs() (*tls.Config, *tls.Config) {
 	tlsOnce.Do(func() {
 		key, err := ecdsa.GenerateKey(elliptic.P256(), crand.Reader)
